@@ -350,6 +350,9 @@ def gen_layered_world(rng, i, two_layer=None, want_files=True, small=False, allo
             if rng.chance(0.04):
                 # a crowded directory: growth of the consulted list well past its initial size
                 names = names + ["%02d-n" % k for k in rng.sample(range(10, 60), rng.randint(6, 22))]
+            if suf and rng.chance(0.08):
+                # names that contain the suffix once more before their end: <x>.conf.conf, <x>.conf.d.conf
+                names = names + [n_ for n_ in rng.subset(["twice" + suf, "mid" + suf + ".d", suf[1:] + "-first"], 1, 2) if n_ not in used_here]
             for nm in names:
                 used_here.add(nm)
                 fid += 1
